@@ -10,6 +10,7 @@ import OapiVerif.Model.Security
 import OapiVerif.Model.Enums
 import OapiVerif.Model.Merge
 import OapiVerif.Model.Union
+import OapiVerif.Model.DeepObject
 /-!
 Line-protocol driver: one JSON object per line in, one per line out.
 `{"fn": <name>, ...}` ↦ `{"ok": <result>}` or `{"err": "bad-op"}` (never a default).
@@ -382,8 +383,22 @@ def unionTableD (j : Json) : Except String Json := do
     ("written", Json.arr (elements.map fun r => Json.arr #[Json.str (goType r),
         match Union.written t sorted (goType r) with | some v => Json.str v | none => Json.null]).toArray)])
 
+def deepObjectD (j : Json) : Except String Json := do
+  let name ← getHex j "name"
+  let keys ← getHexList j "keys"
+  let vals ← getHexList j "vals"
+  let kvs := keys.zip vals
+  let frag := DeepObject.frag name kvs
+  let bound : Json := match Codec.parseQuery frag with
+    | .error e => Json.mkObj [("parseErr", e)]
+    | .ok q => match DeepObject.bind name q with
+      | .error e => Json.mkObj [("bindErr", e)]
+      | .ok r => Json.mkObj [("keys", jstrs (r.map (hexStr ·.1))), ("vals", jstrs (r.map (hexStr ·.2)))]
+  pure (Json.mkObj [("frag", hexStr frag), ("bound", bound)])
+
 def dispatch (fn : String) (j : Json) : Except String Json :=
   match fn with
+  | "deepObject" => deepObjectD j
   | "unionTable" => unionTableD j
   | "merge" => mergeD j
   | "enumNames" => enumNamesD j
